@@ -220,6 +220,12 @@ def reassemble (ds : List Nat) (e : Int) : List Char :=
 /-- Grammar check for `sciValue`: `[+-] (digits [. digits*] | . digits+) [e [+-] digits+]`. -/
 def allDigits (cs : List Char) : Bool := cs.all isDigit
 
+/-- shape of an exponent part: `[+-] digits+` -/
+def expShapeOk : List Char → Bool
+  | '-' :: ds => !ds.isEmpty && allDigits ds
+  | '+' :: ds => !ds.isEmpty && allDigits ds
+  | ds => !ds.isEmpty && allDigits ds
+
 def sciShapeOk (t : List Char) : Bool :=
   let (mant, expPart) := splitAtFirst isE t
   let (ip, fpo) := splitAtFirst (· == '.') mant
@@ -230,20 +236,19 @@ def sciShapeOk (t : List Char) : Bool :=
   let expOk :=
     match expPart with
     | none => true
-    | some ('-' :: ds) => !ds.isEmpty && allDigits ds
-    | some ('+' :: ds) => !ds.isEmpty && allDigits ds
-    | some ds => !ds.isEmpty && allDigits ds
+    | some ep => expShapeOk ep
   mantOk && expOk
+
+/-- optional sign of a decimal text -/
+def stripSign : List Char → Bool × List Char
+  | '-' :: r => (true, r)
+  | '+' :: r => (false, r)
+  | r => (false, r)
 
 /-- Value of a decimal text accepted by Rust's `f64::from_str` (sign, `n`, `e`). -/
 def sciValue (t : List Char) : Option (Bool × Nat × Int) :=
-  let (neg, body) := match t with
-    | '-' :: r => (true, r)
-    | '+' :: r => (false, r)
-    | r => (false, r)
-  if sciShapeOk body then
-    let (n, e) := plainValue body
-    some (neg, n, e)
+  let sb := stripSign t
+  if sciShapeOk sb.2 then some (sb.1, (plainValue sb.2).1, (plainValue sb.2).2)
   else none
 
 /-! ### binary64 bit patterns (magnitude part: 63 bits) -/
